@@ -127,6 +127,7 @@ type Options struct {
 	Samples   int       // number of sample cases to keep
 	SplitLen  int       // prefixes up to this length may be handed to other workers
 	Replays   int       // times a violating execution is re-run to check determinism (default 5)
+	Whole     bool      // sharded mode: run the whole tree inside one worker process
 	StopOnSig bool      // keep only the first violation of each signature (all still counted)
 }
 
